@@ -214,15 +214,30 @@ theorem insertFrameCore_inv {s : State} (h : Inv s) {f : Frame} (wf : WfFrame f)
    insertFrameCore_ctxOk h.k wf h.c.nodup (fun c hc => (h.c.iff c).2 hc)
      (fun c hc => by rcases (h.c.iff c).1 hc with e | e; exact Or.inl e; exact Or.inr (Or.inl e))⟩
 
-/-- `POST /import` / `insert_frame`: accepted iff the topic has no NUL; then the invariant holds -/
+/-- what an accepted import did -/
+theorem insertFrame_ok {s s' : State} {f : Frame} (e : s.insertFrame f = .ok s') :
+    f.decodable = true ∧ hasNul f.topic = false ∧ s' = s.insertFrameCore f := by
+  unfold State.insertFrame at e
+  by_cases hd : f.decodable = true
+  · by_cases hn : hasNul f.topic = true
+    · simp [hd, hn] at e
+    · have hn' : hasNul f.topic = false := by simpa using hn
+      simp only [hd, hn', Bool.not_true, Bool.false_eq_true, if_false] at e
+      injection e with e
+      exact ⟨hd, hn', e.symm⟩
+  · have hd' : f.decodable = false := by simpa using hd
+    simp [hd'] at e
+
+theorem insertFrame_accepts {s : State} {f : Frame} (hd : f.decodable = true) (hn : hasNul f.topic = false) :
+    s.insertFrame f = .ok (s.insertFrameCore f) := by
+  simp [State.insertFrame, hd, hn]
+
+/-- `POST /import` / `insert_frame`: accepted iff the frame decodes and its topic has no NUL;
+    then the invariant holds -/
 theorem insertFrame_inv {s s' : State} (h : Inv s) {f : Frame} (hid : f.id < idBound)
     (hctx : f.ctx < idBound) (e : s.insertFrame f = .ok s') : Inv s' := by
-  unfold State.insertFrame at e
-  split at e
-  · cases e
-  · rename_i hn
-    injection e with e; subst e
-    exact insertFrameCore_inv h ⟨hid, hctx, hasNul_eq_false_iff.1 (by simpa using hn)⟩
+  obtain ⟨hd, hn, rfl⟩ := insertFrame_ok e
+  exact insertFrameCore_inv h ⟨hid, hctx, hasNul_eq_false_iff.1 hn, hd⟩
 
 /-! ### remove -/
 
@@ -345,158 +360,120 @@ theorem readHist_inv {s : State} (h : Inv s) (ctx last : Option Nat) (limit : Op
 
 theorem xsContext_nulFree : hasNul xsContext = false := by decide
 
-/-- what an accepted append did: the frame it returns is the request with the assigned id
-    (ttl forced to `forever` for `xs.context`), and the new state is the old one plus that
-    frame unless it is ephemeral. -/
+/-- the frame `append` works on: the request with the assigned id, ttl forced to `forever`
+    for `xs.context` -/
+def stamped (f0 : Frame) (id : Nat) : Frame :=
+  { f0 with id := id, ttl := if f0.topic = xsContext then some .forever else f0.ttl }
+
+/-- the state after an accepted, stored append of `f` -/
+def storedState (s : State) (f : Frame) : State :=
+  { s.insertFrameCore f with
+    gcq := (s.insertFrameCore f).gcq ++ headTask f
+    bcast := (s.insertFrameCore f).bcast ++ [f] }
+
+/-- complete characterisation of `Store::append` -/
+theorem append_spec {s s' : State} {f0 f : Frame} {id : Nat} :
+    s.append f0 id = .ok (s', f) ↔
+      hasNul f0.topic = false ∧
+      (if f0.topic = xsContext then f0.ctx = 0 else f0.ctx ∈ s.contexts) ∧
+      f = stamped f0 id ∧
+      (if f.ttl = some .ephemeral then s' = { s with bcast := s.bcast ++ [f] }
+       else f.decodable = true ∧ s' = storedState s f) := by
+  unfold State.append State.appendPre State.appendStore stamped storedState
+  by_cases ht : f0.topic = xsContext
+  · have hnn : hasNul f0.topic = false := by rw [ht]; exact xsContext_nulFree
+    by_cases hc : f0.ctx = 0 <;> by_cases hd : f0.decodable = true
+    · simp only [ht, hc, hd, xsContext_nulFree, ne_eq, not_true_eq_false, if_true, if_false, Option.some.injEq, reduceCtorEq,
+        Bool.false_eq_true, Bool.not_true, Except.ok.injEq, Prod.mk.injEq, true_and]
+      constructor
+      · rintro ⟨rfl, rfl⟩; simp [hd]
+      · rintro ⟨rfl, h4⟩
+        simp only [Option.some.injEq, reduceCtorEq, if_false, hd, true_and] at h4
+        exact ⟨h4.symm, rfl⟩
+    · have hd' : f0.decodable = false := by simpa using hd
+      simp only [ht, hc, hd', xsContext_nulFree, ne_eq, not_true_eq_false, if_true, if_false, Option.some.injEq, reduceCtorEq,
+        Bool.false_eq_true, Bool.not_false, true_and, false_iff]
+      rintro ⟨rfl, h4⟩
+      simp [hd'] at h4
+    · simp [ht, hc]
+    · simp [ht, hc]
+  · by_cases hc : f0.ctx ∈ s.contexts
+    · by_cases hn : hasNul f0.topic = true
+      · simp [ht, hc, hn]
+      · have hn' : hasNul f0.topic = false := by simpa using hn
+        by_cases he : f0.ttl = some TTL.ephemeral
+        · simp only [ht, hc, hn', he, if_true, if_false, Bool.false_eq_true, Except.ok.injEq, Prod.mk.injEq, true_and]
+          constructor
+          · rintro ⟨rfl, rfl⟩; simp [he]
+          · rintro ⟨rfl, h4⟩; simp only [he, if_true] at h4; exact ⟨h4.symm, rfl⟩
+        · by_cases hd : f0.decodable = true
+          · simp only [ht, hc, hn', he, hd, if_true, if_false, Bool.false_eq_true, Bool.not_true, Except.ok.injEq,
+              Prod.mk.injEq, true_and]
+            constructor
+            · rintro ⟨rfl, rfl⟩; simp [he, hd]
+            · rintro ⟨rfl, h4⟩; simp only [he, if_false, hd, true_and] at h4; exact ⟨h4.symm, rfl⟩
+          · have hd' : f0.decodable = false := by simpa using hd
+            simp only [ht, hc, hn', he, hd', if_true, if_false, Bool.false_eq_true, Bool.not_false, reduceCtorEq,
+              true_and, false_iff]
+            rintro ⟨rfl, h4⟩
+            simp [he, hd'] at h4
+    · simp [ht, hc]
+
+/-- what an accepted append did (weaker, convenient form) -/
 theorem append_ok {s s' : State} {f0 f : Frame} {id : Nat} (e : s.append f0 id = .ok (s', f)) :
     hasNul f0.topic = false ∧
     f = { f0 with id := id, ttl := if f0.topic = xsContext then some .forever else f0.ttl } ∧
     (if f0.topic = xsContext then f0.ctx = 0 else f0.ctx ∈ s.contexts) ∧
     s'.bcast = s.bcast ++ [f] := by
-  unfold State.append State.appendPre at e
-  by_cases ht : f0.topic = xsContext
-  · by_cases hc : f0.ctx = 0
-    · simp only [ht, hc, ne_eq, not_true_eq_false, if_true, if_false] at e
-      unfold State.appendStore at e
-      simp only [xsContext_nulFree, Bool.false_eq_true, if_false] at e
-      simp only [reduceCtorEq, Option.some.injEq, if_false] at e
-      injection e with e; injection e with e1 e2
-      subst e1 e2
-      simp [ht, hc, xsContext_nulFree, State.insertFrameCore]
-    · simp [ht, hc] at e
-  · by_cases hc : f0.ctx ∈ s.contexts
-    · simp only [ht, hc, if_true, if_false] at e
-      unfold State.appendStore at e
-      by_cases hn : hasNul f0.topic = true
-      · simp [hn] at e
-      · simp only [hn, Bool.false_eq_true, if_false] at e
-        by_cases he : f0.ttl = some TTL.ephemeral
-        · simp only [he, if_true] at e
-          injection e with e; injection e with e1 e2
-          subst e1 e2
-          simp [ht, hc, he]
-          simpa using hn
-        · simp only [he, if_false] at e
-          injection e with e; injection e with e1 e2
-          subst e1 e2
-          simp [ht, hc, State.insertFrameCore]
-          simpa using hn
-    · simp [ht, hc] at e
+  obtain ⟨h1, h2, h3, h4⟩ := append_spec.1 e
+  refine ⟨h1, h3, h2, ?_⟩
+  by_cases he : f.ttl = some .ephemeral
+  · simp only [he, if_true] at h4; rw [h4]
+  · simp only [he, if_false] at h4; rw [h4.2]; simp [storedState, State.insertFrameCore]
+
+theorem stamped_wf {f0 : Frame} {id : Nat} (hid : id < idBound) (hctx : f0.ctx < idBound)
+    (hn : hasNul f0.topic = false) (hd : (stamped f0 id).decodable = true) : WfFrame (stamped f0 id) :=
+  ⟨hid, hctx, hasNul_eq_false_iff.1 hn, hd⟩
 
 theorem append_inv {s s' : State} {f0 f : Frame} {id : Nat} (h : Inv s) (hid : id < idBound)
     (hctx : f0.ctx < idBound) (e : s.append f0 id = .ok (s', f)) : Inv s' := by
-  obtain ⟨hn, hf, hc, _⟩ := append_ok e
-  unfold State.append State.appendPre at e
-  by_cases ht : f0.topic = xsContext
-  · have hc0 : f0.ctx = 0 := by simpa [ht] using hc
-    simp only [ht, hc0, ne_eq, not_true_eq_false, if_true, if_false] at e
-    unfold State.appendStore at e
-    simp only [xsContext_nulFree, Bool.false_eq_true, if_false, reduceCtorEq] at e
-    injection e with e; injection e with e1 _
-    subst e1
-    -- pre-registered id, then insert_frame
-    let s1 : State := { s with contexts := ctxInsert id s.contexts }
-    let f1 : Frame := { topic := xsContext, ctx := 0, id := id, hash := f0.hash, mdata := f0.mdata,
-                        ttl := some .forever }
-    have wf1 : WfFrame f1 := ⟨hid, by show 0 < idBound; decide, hasNul_eq_false_iff.1 xsContext_nulFree⟩
-    have hK1 : InvK s1 := invK_congr h.k rfl rfl rfl
-    have hfr : frames s1 = frames s := rfl
-    have hreg : f1.isReg = true := by simp [Frame.isReg, f1]
-    have hI : Inv (s1.insertFrameCore f1) := by
-      refine ⟨insertFrameCore_invK hK1 wf1, insertFrameCore_ctxOk hK1 wf1 (nodup_ctxInsert h.c.nodup) ?_ ?_⟩
-      · intro c hcc
-        show c ∈ ctxInsert id s.contexts
-        rw [mem_ctxInsert]; exact Or.inr ((h.c.iff c).2 (by rw [← hfr]; exact hcc))
-      · intro c hcc
-        have : c ∈ ctxInsert id s.contexts := hcc
-        rw [mem_ctxInsert] at this
-        rcases this with e | e
-        · exact Or.inr (Or.inr ⟨hreg, e⟩)
-        · rcases (h.c.iff c).1 e with e' | e'
-          · exact Or.inl e'
-          · exact Or.inr (Or.inl e')
-    have e1' : { f0 with id := id, ttl := some TTL.forever, topic := xsContext, ctx := 0 } = f1 := rfl
-    cases f0 with
-    | mk topic ctx id0 hash mdata ttl =>
-      simp only at ht hc0
-      subst ht hc0
-      exact inv_of_parts hI rfl rfl rfl rfl
-  · have hcc : f0.ctx ∈ s.contexts := by simpa [ht] using hc
-    simp only [ht, hcc, if_true, if_false] at e
-    unfold State.appendStore at e
-    simp only [hn, Bool.false_eq_true, if_false] at e
-    by_cases he : f0.ttl = some TTL.ephemeral
-    · simp only [he, if_true] at e
-      injection e with e; injection e with e1 _
-      subst e1
-      exact inv_of_parts h rfl rfl rfl rfl
-    · simp only [he, if_false] at e
-      injection e with e; injection e with e1 _
-      subst e1
-      have wf1 : WfFrame { f0 with id := id } := ⟨hid, hctx, hasNul_eq_false_iff.1 hn⟩
-      exact inv_of_parts (insertFrameCore_inv h wf1) rfl rfl rfl rfl
+  obtain ⟨hn, _, hf, h4⟩ := append_spec.1 e
+  by_cases he : f.ttl = some .ephemeral
+  · simp only [he, if_true] at h4; rw [h4]; exact inv_of_parts h rfl rfl rfl rfl
+  · simp only [he, if_false] at h4
+    have hd := h4.1
+    rw [h4.2, hf]
+    rw [hf] at hd
+    exact inv_of_parts (insertFrameCore_inv h (stamped_wf hid hctx hn hd)) rfl rfl rfl rfl
 
 theorem mem_frames_insertFrame {s s' : State} (h : Inv s) {f : Frame} (hid : f.id < idBound)
     (hctx : f.ctx < idBound) (e : s.insertFrame f = .ok s') (g : Frame) :
     g ∈ frames s' ↔ g = f ∨ (g ∈ frames s ∧ g.id ≠ f.id) := by
-  unfold State.insertFrame at e
-  split at e
-  · cases e
-  · rename_i hn
-    injection e with e; subst e
-    exact mem_frames_insertFrameCore h.k ⟨hid, hctx, hasNul_eq_false_iff.1 (by simpa using hn)⟩ g
+  obtain ⟨hd, hn, rfl⟩ := insertFrame_ok e
+  exact mem_frames_insertFrameCore h.k ⟨hid, hctx, hasNul_eq_false_iff.1 hn, hd⟩ g
 
 theorem mem_frames_append {s s' : State} {f0 f : Frame} {id : Nat} (h : Inv s) (hid : id < idBound)
     (hctx : f0.ctx < idBound) (e : s.append f0 id = .ok (s', f)) (hne : f.ttl ≠ some .ephemeral)
     (g : Frame) : g ∈ frames s' ↔ g = f ∨ (g ∈ frames s ∧ g.id ≠ f.id) := by
-  obtain ⟨hn, hf, hc, _⟩ := append_ok e
-  unfold State.append State.appendPre at e
-  by_cases ht : f0.topic = xsContext
-  · have hc0 : f0.ctx = 0 := by simpa [ht] using hc
-    cases f0 with
-    | mk topic ctx id0 hash mdata ttl =>
-      simp only at ht hc0
-      subst ht hc0
-      simp only [ne_eq, not_true_eq_false, if_true, if_false] at e
-      unfold State.appendStore at e
-      simp only [xsContext_nulFree, Bool.false_eq_true, if_false, reduceCtorEq] at e
-      injection e with e; injection e with e1 e2
-      subst e1 e2
-      have wf1 : WfFrame (Frame.mk xsContext 0 id hash mdata (some .forever)) :=
-        ⟨hid, by show 0 < idBound; decide, hasNul_eq_false_iff.1 xsContext_nulFree⟩
-      have hK1 : InvK ({ s with contexts := ctxInsert id s.contexts }) := invK_congr h.k rfl rfl rfl
-      exact mem_frames_insertFrameCore hK1 wf1 g
-  · have hcc : f0.ctx ∈ s.contexts := by simpa [ht] using hc
-    simp only [ht, hcc, if_true, if_false] at e
-    unfold State.appendStore at e
-    simp only [hn, Bool.false_eq_true, if_false] at e
-    by_cases he : f0.ttl = some TTL.ephemeral
-    · simp only [he, if_true] at e
-      injection e with e; injection e with _ e2
-      subst e2
-      exact absurd rfl hne
-    · simp only [he, if_false] at e
-      injection e with e; injection e with e1 e2
-      subst e1 e2
-      exact mem_frames_insertFrameCore h.k (f := { f0 with id := id })
-        ⟨hid, hctx, hasNul_eq_false_iff.1 hn⟩ g
+  obtain ⟨hn, _, hf, h4⟩ := append_spec.1 e
+  simp only [hne, if_false] at h4
+  have : frames s' = frames (s.insertFrameCore f) := by rw [h4.2]; rfl
+  have hd := h4.1
+  rw [this, hf]
+  rw [hf] at hd
+  exact mem_frames_insertFrameCore h.k (stamped_wf hid hctx hn hd) g
 
 /-- the acceptance rule of `append`, converse direction -/
 theorem append_accepts {s : State} {f0 : Frame} {id : Nat} (hn : hasNul f0.topic = false)
-    (hc : if f0.topic = xsContext then f0.ctx = 0 else f0.ctx ∈ s.contexts) :
+    (hc : if f0.topic = xsContext then f0.ctx = 0 else f0.ctx ∈ s.contexts)
+    (hd : (stamped f0 id).ttl = some .ephemeral ∨ f0.decodable = true) :
     ∃ r, s.append f0 id = .ok r := by
-  unfold State.append State.appendPre
-  by_cases ht : f0.topic = xsContext
-  · have hc0 : f0.ctx = 0 := by simpa [ht] using hc
-    simp only [ht, hc0, ne_eq, not_true_eq_false, if_true, if_false]
-    unfold State.appendStore
-    simp [xsContext_nulFree]
-  · have hcc : f0.ctx ∈ s.contexts := by simpa [ht] using hc
-    simp only [ht, hcc, if_true, if_false]
-    unfold State.appendStore
-    simp only [hn, Bool.false_eq_true, if_false]
-    by_cases he : f0.ttl = some TTL.ephemeral
-    · simp [he]
-    · simp [he]
+  by_cases he : (stamped f0 id).ttl = some .ephemeral
+  · exact ⟨({ s with bcast := s.bcast ++ [stamped f0 id] }, stamped f0 id), append_spec.2 ⟨hn, hc, rfl, by simp [he]⟩⟩
+  · have hdd : (stamped f0 id).decodable = true := by
+      rcases hd with hd | hd
+      · exact absurd hd he
+      · simpa [stamped] using hd
+    exact ⟨(storedState s (stamped f0 id), stamped f0 id), append_spec.2 ⟨hn, hc, rfl, by simp [he, hdd]⟩⟩
 
 end Xs
